@@ -143,7 +143,8 @@ struct QExpression {
                 }
 
                 case ExpressionType::SubOperation: {
-                    SubExpressions = Memory::Move(src.SubExpressions);
+                    // Nothing is alive in the union at this point: the array is built, not assigned to.
+                    Memory::Initialize(&SubExpressions, Memory::Move(src.SubExpressions));
                     break;
                 }
 
